@@ -38,13 +38,15 @@ ASSUMPTIONS = [
 ]
 BOUNDS = {
     "quick": (
-        "F0: x-2 in slot 1, one class x 8-item menu; F1: x-2 carries up to two classes x 8-item menu (681 universes); "
-        "F2: x-2 and y-2 one class each (41 x 31) with 4 installed subsets; all x 8 installed subsets (F0,F1) x 3 target "
-        "lists x 4 resolver kinds"
+        "F0: x-2 in slot 1, one class x 9-item menu (46 universes); F1: x-2 carries up to two classes x 9-item menu (856); "
+        "F2: x-2 and y-2 one class each (45 x 30) with 4 installed subsets; F4: installed x-1 mirrors a dependency-carrying "
+        "source x-1 (15 x 10), self-consistent installed subsets only; F0/F1/F4 x all 8 installed subsets; x 3 target lists x "
+        "4 resolver kinds = 162,792 resolutions"
     ),
     "thorough": (
-        "F1 with x-2 in slot 0 and in slot 1; F2 with x-1 also carrying one class (menu of 3) and all 8 installed subsets; "
-        "F3: x-1, x-2, y-2, z-1 all carry one class from a 3-item menu; 6 target lists x 6 resolver kinds"
+        "F1 with x-2 in slot 0 and in slot 1 (1712); F2 with x-1 in 4 dependency settings (5400) x 8 installed subsets; F3: "
+        "x-1, x-2, y-2, z-1 each carry one of DEPEND/RDEPEND/PDEPEND from a 3-item menu (6561) x 4 installed subsets; F4 "
+        "(45 x 16); x 6 target lists x 6 resolver kinds = 3,145,680 resolutions"
     ),
 }
 
@@ -257,7 +259,7 @@ def resolve(uni, targets, kind, trees=None):
         return res
     except Exception as e:
         res["outcome"] = "crash"
-        res["exc"] = f"{type(e).__name__}: {str(e).splitlines()[0] if str(e) else ''}"[:300]
+        res["exc"] = re.sub(r" ?@(0x)?[0-9a-f]{6,}", "", f"{type(e).__name__}: {str(e).splitlines()[0] if str(e) else ''}")[:300]
         return res
     res["outcome"] = "fail" if ret else "ok"
     return res
